@@ -602,7 +602,22 @@ func (e *Env) Exec(op Op) Result {
 			_, serr := sub.Stat(root)
 			ents, rerr := sub.ReadDir(root)
 
-			return res(nil, "root:"+ErrClass(serr)+" list:"+ErrClass(rerr)+" "+entriesString(ents, true))
+			// the other volumes of the file system are outside the view.
+			leaked := 0
+
+			if vm, ok := v.(avfs.VolumeManager); ok {
+				for _, vol := range vm.VolumeList() {
+					if vol+string(sub.PathSeparator()) == root {
+						continue
+					}
+
+					if _, err := sub.Stat(vol + string(sub.PathSeparator())); err == nil {
+						leaked++
+					}
+				}
+			}
+
+			return res(nil, "root:"+ErrClass(serr)+" list:"+ErrClass(rerr)+" "+entriesString(ents, true)+" other-volumes-visible:"+strconv.Itoa(leaked))
 		}
 
 		return res(err, "")
